@@ -838,6 +838,70 @@ def _pi(tag, v):
     return {"k": "probe", "tag": tag, "e": {"k": "int", "v": v}}
 
 
+def eq_kernels(start_id):
+    """= and <> end to end (C10): every type x {equal, unequal} pair x operand forms (literal / variable / call result) on either side.
+    A comparison may not depend on HOW an operand is written (a literal on the left, a variable on the right, ...)"""
+    progs = []
+    pid = [start_id]
+
+    def T(i):
+        return "p%dk%d" % (pid[0], i)
+    def lit_int(v):
+        return {"k": "int", "v": v}
+    def lit_str(v):
+        return {"k": "str", "v": v}
+    for tyname in ("int", "str", "bool", "tup", "rec", "uni", "uni0", "sl"):
+        for equal in (True, False):
+            for op in ("=", "<>"):
+                for fl, fr in itertools.product(("lit", "var", "call"), repeat=2):
+                    rn, un = "P%dEq" % pid[0], "P%dEu" % pid[0]
+                    types = []
+                    if tyname == "int":
+                        a, b, mt = lit_int(3), lit_int(3 if equal else 4), INT
+                    elif tyname == "str":
+                        a, b, mt = lit_str("s"), lit_str("s" if equal else "t"), STR
+                    elif tyname == "bool":
+                        a, b, mt = {"k": "bool", "v": True}, {"k": "bool", "v": equal}, BOOL
+                    elif tyname == "tup":
+                        a = {"k": "tuple", "es": [lit_int(1), lit_str("a")]}
+                        b = {"k": "tuple", "es": [lit_int(1), lit_str("a" if equal else "b")]}
+                        mt = ("tup", (INT, STR))
+                    elif tyname == "rec":
+                        types = [{"k": "record", "name": rn, "fields": ["A", "b"], "ftypes": [INT, STR]}]
+                        a = {"k": "rec", "name": rn, "fields": [{"n": "A", "e": lit_int(1)}, {"n": "b", "e": lit_str("x")}]}
+                        b = {"k": "rec", "name": rn, "fields": [{"n": "A", "e": lit_int(1)}, {"n": "b", "e": lit_str("x" if equal else "y")}]}
+                        mt = ("rec", rn)
+                    elif tyname in ("uni", "uni0"):
+                        cs = [{"n": "P%dCa" % pid[0], "p": True}, {"n": "P%dCb" % pid[0], "p": False}]
+                        types = [{"k": "union", "name": un, "cases": cs, "ptypes": [("sl", INT), None]}]
+                        pay = lambda v: {"k": "slice", "es": [lit_int(1), lit_int(v)]}
+                        if tyname == "uni":
+                            a = {"k": "ctor", "union": un, "case": cs[0]["n"], "arg": pay(2)}
+                            b = {"k": "ctor", "union": un, "case": cs[0]["n"], "arg": pay(2 if equal else 3)}
+                        else:
+                            a = {"k": "ctor", "union": un, "case": cs[1]["n"], "arg": {"k": "none"}}
+                            b = a if equal else {"k": "ctor", "union": un, "case": cs[0]["n"], "arg": pay(2)}
+                        mt = ("uni", un)
+                    else:
+                        a = {"k": "slice", "es": [lit_int(1), lit_int(2)]}
+                        b = {"k": "slice", "es": [lit_int(1), lit_int(2 if equal else 3)]}
+                        mt = ("sl", INT)
+                    stmts = []
+
+                    def form(f, e, name, tag):
+                        if f == "lit":
+                            return e
+                        if f == "var":
+                            stmts.append({"k": "let", "x": name, "e": e, "vt": mt})
+                            return {"k": "var", "x": name}
+                        return {"k": "probe", "tag": tag, "e": e}
+                    l = form(fl, a, "va", T(1))
+                    r = form(fr, b, "vb", T(2))
+                    progs.append(_prog(pid[0], types, [], {"stmts": stmts, "fin": {"k": "bin", "op": op, "a": l, "b": r}}, BOOL))
+                    pid[0] += 1
+    return progs
+
+
 def kernels(start_id):
     """systematic small programs: short-circuit, evaluation order, if chains, match dispatch, closures / partial application"""
     progs = []
@@ -1133,4 +1197,5 @@ def kernels(start_id):
                          "dflt": {"k": "none"}}
                 outer["arms"][0]["bind"] = "_"
                 add([u], [], {"stmts": [{"k": "let", "x": "c", "e": ctor}, {"k": "let", "x": "o", "e": {"k": "ctor", "union": un, "case": cases[0]["n"], "arg": num(1)}}], "fin": outer})
+    progs += eq_kernels(pid[0])
     return progs
